@@ -174,12 +174,12 @@ pub fn parse(code: String) -> Vec<UnOptCode> {
                             },
                             raw_command,
                         ));
-
-                        area = Area::Nil;
-                        leaf = &mut area;
-                        qu_area = Area::Nil;
-                        qu_leaf = &mut qu_area;
                     }
+
+                    area = Area::Nil;
+                    leaf = &mut area;
+                    qu_area = Area::Nil;
+                    qu_leaf = &mut qu_area;
 
                     type_ = t as u8;
                     hangul_count = 1;
